@@ -18,13 +18,24 @@ Open Scope Z_scope.
 
 Definition member := (Z * list Z)%type.   (* compressed size, data *)
 
-Record rsrc := { r_x : Z; r_trans : Z; r_fails : Z; r_seekk : Z; r_seeks : Z }.
+(** Variant of the code, read off the source by gen/:
+    [rv_inval]  nextBlockAt drops the block's data when readMember fails;
+    [rv_late]   countReader.seek records the new offset only after the
+                underlying Seek has succeeded. *)
+Record rvar := { rv_inval : bool; rv_late : bool }.
+Definition rfixed : rvar := {| rv_inval := true; rv_late := true |}.
+
+(** [r_pos] is where the underlying source really stands; the reader only
+    knows the count reader's idea of it ([croff] below). *)
+Record rsrc := { r_x : Z; r_trans : Z; r_fails : Z; r_seekk : Z; r_seeks : Z; r_pos : Z }.
 
 Definition faulty (r : rsrc) : bool := (0 <=? r_x r) && ((r_trans r =? 0) || (r_fails r <? r_trans r)).
 Definition failed1 (r : rsrc) : rsrc :=
-  {| r_x := r_x r; r_trans := r_trans r; r_fails := r_fails r + 1; r_seekk := r_seekk r; r_seeks := r_seeks r |}.
+  {| r_x := r_x r; r_trans := r_trans r; r_fails := r_fails r + 1; r_seekk := r_seekk r; r_seeks := r_seeks r; r_pos := r_pos r |}.
 Definition seeked1 (r : rsrc) : rsrc :=
-  {| r_x := r_x r; r_trans := r_trans r; r_fails := r_fails r; r_seekk := r_seekk r; r_seeks := r_seeks r + 1 |}.
+  {| r_x := r_x r; r_trans := r_trans r; r_fails := r_fails r; r_seekk := r_seekk r; r_seeks := r_seeks r + 1; r_pos := r_pos r |}.
+Definition moved (r : rsrc) (p : Z) : rsrc :=
+  {| r_x := r_x r; r_trans := r_trans r; r_fails := r_fails r; r_seekk := r_seekk r; r_seeks := r_seeks r; r_pos := p |}.
 
 Record rst := {
   file : list member; src : rsrc; croff : Z;
@@ -50,38 +61,45 @@ Fixpoint base_of (f : list member) (m : nat) : Z :=
 Definition upd (s : rst) (sr : rsrc) (co : Z) (b h : Z) (d : list Z) (o : Z) (v : bool) (e : Z) : rst :=
   {| file := file s; src := sr; croff := co; cbase := b; chsize := h; cdata := d; coff := o; cvalid := v; rerr := e |}.
 
-(** d.blk.setBase(off); d.err = d.readMember(); decompress.  Returns the error class. *)
-Definition fetch (inval : bool) (s : rst) : rst * Z :=
+(** d.blk.setBase(d.cr.offset()); d.err = d.readMember(); decompress.
+    The block is labelled with the count reader's offset [croff]; the bytes
+    come from where the source really stands ([r_pos]).  Returns the error class. *)
+Definition fetch (v : rvar) (s : rst) : rst * Z :=
   let a := croff s in
-  let fail (sr : rsrc) (co e : Z) :=
-    (upd s sr co a (chsize s) (cdata s) (if inval then 0 else coff s) (if inval then false else cvalid s) (rerr s), e) in
-  if faulty (src s) && (r_x (src s) <=? a) then fail (failed1 (src s)) a 1
-  else if flen (file s) <=? a then fail (src s) a 3
-  else match member_at (file s) a with
-       | None => fail (src s) a 4
+  let p := r_pos (src s) in
+  let inval := rv_inval v in
+  let fail (sr : rsrc) (delivered e : Z) :=
+    (upd s (moved sr (p + delivered)) (a + delivered) a (if inval then (-1) else chsize s) (cdata s)
+         (if inval then 0 else coff s) (if inval then false else cvalid s) (rerr s), e) in
+  if faulty (src s) && (r_x (src s) <=? p) then fail (failed1 (src s)) 0 1
+  else if flen (file s) <=? p then fail (src s) 0 3
+  else match member_at (file s) p with
+       | None => fail (src s) 0 4
        | Some (sz, d) =>
-         if faulty (src s) && (r_x (src s) <? a + sz) then fail (failed1 (src s)) (r_x (src s)) 1
-         else (upd s (src s) (a + sz) a sz d 0 true (rerr s), 0)
+         if faulty (src s) && (r_x (src s) <? p + sz) then fail (failed1 (src s)) (r_x (src s) - p) 1
+         else (upd s (moved (src s) (p + sz)) (a + sz) a sz d 0 true (rerr s), 0)
        end.
 
-(** decompressor.nextBlockAt(off) followed by wait(). *)
-Definition next_block_at (inval : bool) (s : rst) (off : Z) : rst * Z :=
-  if croff s =? off then fetch inval s
+(** decompressor.nextBlockAt(off) followed by wait(): countReader.seek when
+    the count reader is not at [off]. *)
+Definition next_block_at (v : rvar) (s : rst) (off : Z) : rst * Z :=
+  if croff s =? off then fetch v s
   else
     let sr := seeked1 (src s) in
     if (r_seeks (src s) =? r_seekk (src s)) || (off <? 0) then
-      (upd s sr (croff s) (cbase s) (chsize s) (cdata s) (coff s) (cvalid s) (rerr s), if off <? 0 then 4 else 1)
-    else fetch inval (upd s sr off (cbase s) (chsize s) (cdata s) (coff s) (cvalid s) (rerr s)).
+      (* the underlying Seek fails: the source does not move *)
+      (upd s sr (if rv_late v then croff s else off) (cbase s) (chsize s) (cdata s) (coff s) (cvalid s) (rerr s), if off <? 0 then 4 else 1)
+    else fetch v (upd s (moved sr off) off (cbase s) (chsize s) (cdata s) (coff s) (cvalid s) (rerr s)).
 
 Definition next_base (s : rst) : Z := if chsize s <? 0 then (-1) else cbase s + chsize s.
 Definition cur_len (s : rst) : Z := if cvalid s then Z.max 0 (zlen (cdata s) - coff s) else 0.
 Definition set_err (s : rst) (e : Z) : rst :=
   upd s (src s) (croff s) (cbase s) (chsize s) (cdata s) (coff s) (cvalid s) e.
 
-Definition next_block (inval : bool) (s : rst) : rst * Z := next_block_at inval s (next_base s).
+Definition next_block (inval : rvar) (s : rst) : rst * Z := next_block_at inval s (next_base s).
 
 (** Reader.Read(p) with len p = n. *)
-Fixpoint skip_empty (inval : bool) (fuel : nat) (s : rst) : rst * Z :=
+Fixpoint skip_empty (inval : rvar) (fuel : nat) (s : rst) : rst * Z :=
   match fuel with
   | O => (s, 4)
   | S f => if cur_len s =? 0 then
@@ -90,7 +108,7 @@ Fixpoint skip_empty (inval : bool) (fuel : nat) (s : rst) : rst * Z :=
            else (s, 0)
   end.
 
-Fixpoint read_loop (inval : bool) (fuel : nat) (s : rst) (want : Z) (got : list Z) : rst * Z * list Z :=
+Fixpoint read_loop (inval : rvar) (fuel : nat) (s : rst) (want : Z) (got : list Z) : rst * Z * list Z :=
   match fuel with
   | O => (s, 4, got)
   | S f =>
@@ -107,7 +125,7 @@ Fixpoint read_loop (inval : bool) (fuel : nat) (s : rst) (want : Z) (got : list 
         read_loop inval f s1 (want - k) (got ++ bytes)
   end.
 
-Definition do_read (inval : bool) (s : rst) (n : Z) : rst * Z * list Z :=
+Definition do_read (inval : rvar) (s : rst) (n : Z) : rst * Z * list Z :=
   if negb (rerr s =? 0) then (s, rerr s, [])
   else
     let fuel := (2 * length (file s) + 6)%nat in
@@ -116,7 +134,7 @@ Definition do_read (inval : bool) (s : rst) (n : Z) : rst * Z * list Z :=
     else let '(s2, e2, got) := read_loop inval fuel s1 n [] in (set_err s2 e2, e2, got).
 
 (** Reader.Seek(Offset{File: base of member m, Block: w}). *)
-Definition do_seek (inval : bool) (s : rst) (m : nat) (w : Z) : rst * Z :=
+Definition do_seek (inval : rvar) (s : rst) (m : nat) (w : Z) : rst * Z :=
   let off := base_of (file s) m in
   let go (s1 : rst) := (upd s1 (src s1) (croff s1) (cbase s1) (chsize s1) (cdata s1) w (cvalid s1) 0, 0) in
   if negb (off =? cbase s) || negb (cvalid s) then
@@ -128,7 +146,7 @@ Inductive rop := RRead (n : Z) | RSeek (m : Z) (w : Z) | RClose.
 
 Definition close_class (e : Z) : Z := if e =? 3 then 0 else e.
 
-Fixpoint run_ops (inval : bool) (s : rst) (ops : list rop) : list (Z * list Z) :=
+Fixpoint run_ops (inval : rvar) (s : rst) (ops : list rop) : list (Z * list Z) :=
   match ops with
   | [] => []
   | RRead n :: r => let '(s1, e, got) := do_read inval s n in (e, got) :: run_ops inval s1 r
@@ -137,11 +155,11 @@ Fixpoint run_ops (inval : bool) (s : rst) (ops : list rop) : list (Z * list Z) :
   end.
 
 Definition rinit (f : list member) (x trans seekk : Z) : rst :=
-  {| file := f; src := {| r_x := x; r_trans := trans; r_fails := 0; r_seekk := seekk; r_seeks := 0 |};
+  {| file := f; src := {| r_x := x; r_trans := trans; r_fails := 0; r_seekk := seekk; r_seeks := 0; r_pos := 0 |};
      croff := 0; cbase := 0; chsize := -1; cdata := []; coff := 0; cvalid := false; rerr := 0 |}.
 
 (** NewReader: nextBlockAt(0).wait(); an error is returned to the caller. *)
-Definition ropen (inval : bool) (f : list member) (x trans seekk : Z) : rst * Z :=
+Definition ropen (inval : rvar) (f : list member) (x trans seekk : Z) : rst * Z :=
   fetch inval (rinit f x trans seekk).
 
 Record rcase := mkRCase {
@@ -162,12 +180,13 @@ Fixpoint res_eqb (a b : list (Z * list Z)) : bool :=
   | _, _ => false
   end.
 
-Definition rcase_agree_v (inval : bool) (c : rcase) : bool :=
+Definition rcase_agree_v (inval : rvar) (c : rcase) : bool :=
   let '(s, e) := ropen inval (rc_file c) (rc_x c) (rc_trans c) (rc_seekk c) in
   (e =? rc_open c) &&
   (if e =? 0 then res_eqb (run_ops inval s (rc_ops c)) (rc_res c) else true).
 
-Definition rcase_agree (c : rcase) : bool := rcase_agree_v bgzf_reader_invalidates c.
+Definition reader_variant : rvar := {| rv_inval := bgzf_reader_invalidates; rv_late := bgzf_countreader_off_after_seek |}.
+Definition rcase_agree (c : rcase) : bool := rcase_agree_v reader_variant c.
 
 (** One case type for the comparison run. *)
 Inductive c09case := CW (w : wcase) | CR (r : rcase).
